@@ -32,6 +32,10 @@ def tasks(tier):
             pat('sx.bits', 'to_bits', dict(l=6, fxp=2), k, np_, 'mpyc.runtime.Runtime.to_bits')
             pat('sx.bits', 'trailing_zeros', dict(l=4), k, np_, 'mpyc.runtime.Runtime.trailing_zeros')
             pat('sx.bits', 'gcp2', dict(l=3), k, np_, 'mpyc.runtime.Runtime.gcp2')
+            # explicit l below the type's bit length: the mask must still cover the WHOLE value (bit_length + k bits), not l + k (seeded C18.5)
+            pat('sx.bits', 'trailing_zeros', dict(l=6, lbits=2), k, np_, 'mpyc.runtime.Runtime.trailing_zeros [l < bit_length]')
+            pat('sx.bits', 'gcp2', dict(l=5, lbits=2), k, np_, 'mpyc.runtime.Runtime.gcp2 [l < bit_length]')
+            pat('sx.bits', 'to_bits', dict(l=6, lbits=3), k, np_, 'mpyc.runtime.Runtime.to_bits [l < bit_length]')
             pat('sx.bits', 'unit_vector', dict(l=8, n=3), k, np_, 'mpyc.runtime.Runtime.unit_vector')
             for fn in ('prod', 'schur_prod', 'in_prod'):
                 pat('sx.fxp', 'fxp_list', dict(l=8, f=4, func=fn, flags=(None, None, None, None, 1)), k, np_, f'mpyc.runtime.Runtime.{fn} [fixed point]')
